@@ -16,9 +16,9 @@ From NV Require Import Hostile.Panics Hostile.PanicsProofs.
 From NV Require Sam.Lazy Text.TextBase Text.Gff Text.GffLine Text.Gtf Text.GtfLine Text.BedRec
   Text.BedRecProofs Vcf.Span Vcf.SpanProofs Bgzf.Frame Bgzf.Reader Bgzf.Inflate Bgzf.InflateFuel
   Bam.Record Bam.Decode Bam.Lazy Cram.Itf8 Cram.Ltf8 Cram.Vlq Cram.Nx16Xform Cram.Nx16XformProofs
-  Index.Layout Bcf.Typed Bcf.Record.
+  Index.Layout Bcf.Typed Bcf.Strings Bcf.Genotype Bcf.Record Bcf.RecordTyped Bcf.NeverPanics.
 From NV Require Index.CsiLayout Index.TextIndex.
-From NV Require Hostile.TotalSam Hostile.TotalText Hostile.TotalBin Hostile.TotalBam Hostile.TotalBcf Hostile.TotalIdx.
+From NV Require Hostile.TotalSam Hostile.TotalText Hostile.TotalBin Hostile.TotalBam Hostile.TotalBcf Hostile.TotalIdx Hostile.Fused Hostile.FusedProofs.
 Import ListNotations.
 Open Scope N_scope.
 
@@ -363,26 +363,112 @@ Theorem c15_bcf_fields_bounded : forall m mult dup n bs l r,
 Proof. exact NV.Hostile.TotalBcf.dec_fields_bounded. Qed.
 Print Assumptions c15_bcf_fields_bounded.
 
-Theorem c15_bcf_record_bounded : forall strings contigs bs h infos fmts rest,
-  NV.Bcf.Record.dec_record strings contigs bs = Some (h, infos, fmts, rest) ->
-  (8 + 3 * length fmts + length rest <= length bs)%nat /\
-  length infos = Z.to_nat (NV.Bcf.Record.h_n_info h) /\ length fmts = Z.to_nat (NV.Bcf.Record.h_n_fmt h).
+Theorem c15_bcf_record_bounded : forall strings contigs hs bs h infos fmts rest,
+  NV.Bcf.Record.dec_record strings contigs hs bs = Some (h, infos, fmts, rest) ->
+  (8 + 3 * length fmts + length rest <= length bs)%nat /\ (NV.Bcf.Record.h_n_sample h <= hs)%Z.
 Proof. exact NV.Hostile.TotalBcf.dec_record_bounded. Qed.
 Print Assumptions c15_bcf_record_bounded.
 
-(* REFUTATION of "bounded recursion depth" for the BCF typed descriptor (finding
-   stack-bcf-typed-length-nesting): the descriptor 0xf1^n 0x11 0x01^n is ACCEPTED (Int8, length 1)
-   and uses recursion depth n + 1 -- C10's model needs fuel n + 1 and fails with fuel n; the real
-   read_type <-> read_value pair spends two stack frames per level and overflows the stack for
-   n ~ 10^5 (reproduced on the crates: cases `nest bcf ids|fmtkey 250000`). *)
-Theorem c15_bcf_read_type_depth_refuted : forall n rest,
-  NV.Bcf.Typed.dec_type (S n) (repeat 241 n ++ 17 :: repeat 1 n ++ rest) = Some (1%Z, 1%Z, rest) /\
-  NV.Bcf.Typed.dec_type n (repeat 241 n ++ 17 :: repeat 1 n ++ rest) = None.
+(* The BCF typed descriptor reader (read_type <-> read_value).  Before fix ea50dd5 the descriptor
+   0xf1^n 0x11 0x01^n was accepted with recursion depth n + 1 (finding
+   stack-bcf-typed-length-nesting: stack overflow for n ~ 10^5; the previous revision of this file
+   proved that refutation).  Now the recursion is one level deep for EVERY byte string: fuel 2 gives
+   the result of any larger fuel, and a run of two or more length-overflow descriptors is rejected. *)
+Theorem c15_bcf_read_type_depth_two : forall f bs,
+  NV.Bcf.Typed.dec_type (S (S f)) bs = NV.Bcf.Typed.dec_type 2 bs.
+Proof. exact NV.Hostile.TotalBcf.dec_type_depth_two. Qed.
+Print Assumptions c15_bcf_read_type_depth_two.
+
+Theorem c15_bcf_read_type_nested_rejected : forall f n rest, (2 <= n)%nat ->
+  NV.Bcf.Typed.dec_type f (repeat 241 n ++ rest) = None.
+Proof. exact NV.Hostile.TotalBcf.dec_type_nested_rejected. Qed.
+Print Assumptions c15_bcf_read_type_nested_rejected.
+
+(* BCF typed VALUE decoders and read_record_buf as a whole (typed): never the panic outcome, for
+   every byte string, sample count, dictionary and header typing (C10's NV.Bcf.NeverPanics, whose
+   models follow the repaired decoders and are compared with the crates on hostile bytes by C10's
+   hx* kinds) *)
+Theorem c15_bcf_values_total :
+  (forall array bs, NV.Bcf.Typed.dec_info_int_gen array bs <> NV.Bcf.Typed.RPanic) /\
+  (forall array bs, NV.Bcf.Typed.dec_info_float_gen array bs <> NV.Bcf.Typed.RPanic) /\
+  (forall bs, NV.Bcf.Strings.dec_info_str bs <> NV.Bcf.Typed.RPanic /\
+              NV.Bcf.Strings.dec_info_strs bs <> NV.Bcf.Typed.RPanic /\
+              NV.Bcf.Strings.dec_info_char bs <> NV.Bcf.Typed.RPanic /\
+              NV.Bcf.Strings.dec_info_chars bs <> NV.Bcf.Typed.RPanic) /\
+  (forall scalar ns bs, NV.Bcf.Typed.dec_fmt_int_gen scalar ns bs <> NV.Bcf.Typed.RPanic) /\
+  (forall scalar ns bs, NV.Bcf.Typed.dec_fmt_float_gen scalar ns bs <> NV.Bcf.Typed.RPanic) /\
+  (forall ns bs, NV.Bcf.Strings.dec_fmt_chars ns bs <> NV.Bcf.Typed.RPanic /\
+                 NV.Bcf.Strings.dec_fmt_char_arrays ns bs <> NV.Bcf.Typed.RPanic /\
+                 NV.Bcf.Strings.dec_fmt_strings ns bs <> NV.Bcf.Typed.RPanic /\
+                 NV.Bcf.Strings.dec_fmt_str_arrays ns bs <> NV.Bcf.Typed.RPanic) /\
+  (forall ns bs, NV.Bcf.Genotype.dec_gt ns bs <> NV.Bcf.Typed.RPanic).
 Proof.
-  intros n rest. split;
-  [apply NV.Hostile.TotalBcf.dec_type_nested_accepts | apply NV.Hostile.TotalBcf.dec_type_nested_needs_depth].
+  split; [exact NV.Bcf.NeverPanics.dec_info_int_gen_np|].
+  split; [exact NV.Bcf.NeverPanics.dec_info_float_gen_np|].
+  split; [intro bs; repeat split;
+          [apply NV.Bcf.NeverPanics.dec_info_str_np | apply NV.Bcf.NeverPanics.dec_info_strs_np
+          | apply NV.Bcf.NeverPanics.dec_info_char_np | apply NV.Bcf.NeverPanics.dec_info_chars_np]|].
+  split; [exact NV.Bcf.NeverPanics.dec_fmt_int_gen_np|].
+  split; [exact NV.Bcf.NeverPanics.dec_fmt_float_gen_np|].
+  split; [intros ns bs; repeat split;
+          [apply NV.Bcf.NeverPanics.dec_fmt_chars_np | apply NV.Bcf.NeverPanics.dec_fmt_char_arrays_np
+          | apply NV.Bcf.NeverPanics.dec_fmt_strings_np | apply NV.Bcf.NeverPanics.dec_fmt_str_arrays_np]|].
+  exact NV.Bcf.NeverPanics.dec_gt_np.
 Qed.
-Print Assumptions c15_bcf_read_type_depth_refuted.
+Print Assumptions c15_bcf_values_total.
+
+Theorem c15_bcf_record_typed_total : forall strings contigs ik fk hs bs,
+  NV.Bcf.RecordTyped.dec_record_typed strings contigs ik fk hs bs <> NV.Bcf.Typed.RPanic.
+Proof. exact NV.Bcf.NeverPanics.dec_record_typed_np. Qed.
+Print Assumptions c15_bcf_record_typed_total.
+
+(* ---- (13) fused lazy iterators (repairs 700dd65 sam data, 83824ec bam data, f81811e gff) ------- *)
+
+(* ANY iterator of the repaired shape -- next() parses one item off the remaining source and
+   discards the source when the item parser fails -- yields only Ok items and then nothing or
+   exactly one error: at most one error, and it is the last item.  No hypothesis on the item parser
+   (this is the statement for sam::record::Data::iter and bam::record::Data::iter, whose field
+   parsers are the Section variable). *)
+Theorem c15_fused_iter_at_most_one_error : forall A (parse : list N -> option (A * list N)) fuel src,
+  NV.Hostile.FusedProofs.fused_shape (NV.Hostile.Fused.fused_run parse fuel src).
+Proof. exact NV.Hostile.FusedProofs.fused_run_shape. Qed.
+Print Assumptions c15_fused_iter_at_most_one_error.
+
+(* and it ENDS: when a successful item consumes at least one byte, the consumer sees at most |src|
+   items and |src| + 1 calls of next reach the None *)
+Theorem c15_fused_iter_ends : forall A (parse : list N -> option (A * list N)),
+  (forall src a rest, parse src = Some (a, rest) -> (length rest < length src)%nat) ->
+  (forall fuel src, (length (NV.Hostile.Fused.fused_run parse fuel src) <= length src)%nat) /\
+  (forall f1 f2 src, (length src < f1)%nat -> (length src < f2)%nat ->
+     NV.Hostile.Fused.fused_run parse f1 src = NV.Hostile.Fused.fused_run parse f2 src).
+Proof.
+  intros A parse H. split;
+  [intros fuel src; apply NV.Hostile.FusedProofs.fused_run_length; exact H
+  | apply NV.Hostile.FusedProofs.fused_run_ends; exact H].
+Qed.
+Print Assumptions c15_fused_iter_ends.
+
+(* GFF3 Record::attributes().iter() (model NV.Hostile.Fused.gff_attr_run, compared item by item
+   with the crate: kind gffit): for EVERY attributes column the items are Ok.. then at most one
+   error, there are at most |column| of them, and they are exactly C18's collected view followed by
+   one error iff that view ended abnormally *)
+Theorem c15_gff_attributes_iter_fused : forall col,
+  NV.Hostile.FusedProofs.fused_shape (NV.Hostile.Fused.gff_attr_run col) /\
+  (length (NV.Hostile.Fused.gff_attr_run col) <= length col)%nat /\
+  NV.Hostile.Fused.gff_attr_run col =
+    map NV.Hostile.Fused.IOk (fst (NV.Text.Gff.gff_attrs_parse col)) ++
+    match snd (NV.Text.Gff.gff_attrs_parse col) with Some _ => [NV.Hostile.Fused.IErr] | None => [] end.
+Proof.
+  intro col. destruct (NV.Hostile.FusedProofs.gff_attr_run_fused col) as [H1 H2].
+  split; [exact H1|]. split; [exact H2 | apply NV.Hostile.FusedProofs.gff_attr_run_spec].
+Qed.
+Print Assumptions c15_gff_attributes_iter_fused.
+
+Example c15_nonvacuous_gff_fused :
+  NV.Hostile.Fused.gff_attr_run [73;68;61;49;59;78;97;109;101] =
+    [NV.Hostile.Fused.IOk ([73;68], NV.Text.TextBase.VString [49]); NV.Hostile.Fused.IErr]
+  /\ NV.Hostile.Fused.gff_attr_run [42] = [NV.Hostile.Fused.IErr].
+Proof. split; vm_compute; reflexivity. Qed.
 
 (* the totality statement for the decoders of other properties, in one piece; what is NOT in it is
    listed in checks/C15.json (BCF typed value decoders, CSI/tabix/fai/crai readers, CRAM container
